@@ -1,7 +1,7 @@
 ----------------------------- MODULE TraceDevice -----------------------------
 (* Batch trace validation for Device.tla.  TRACE_FILE: JSON array of traces
      [ dep |-> deployment record (see Device.tla), ev |-> << event, ... >> ]
-   event = [ o |-> "assign" | "setvalue" | "new" | "get" | "state" | "ven" | "gen" | "sel" | "read" | "tick", args...,
+   event = [ o |-> "assign" | "setvalue" | "new" | "get" | "state" | "ven" | "gen" | "sel" | "read" | "reset" | "tick", args...,
              obs |-> [ val, vst, ven, gen, ntasks, raised (0/1), wireok (0/1: every emitted message re-parses unchanged),
                        pub |-> << [t, v, st, els |-> << <<name, value>> >>] >>,
                        hlog |-> << [h, ev, seen, req, old, new, late (0/1)] >> ] ]
@@ -31,6 +31,7 @@ Post == CASE Ev.o = "assign"   -> OpAssign(D, S, Ev.v, Ev.e, Ev.x)
           [] Ev.o = "gen"      -> OpGroupEnabled(D, S, Ev.g, Ev.b)
           [] Ev.o = "sel"      -> OpSetSelected(D, S, Ev.v, Range(Ev.names))
           [] Ev.o = "read"     -> OpRead(D, S, Ev.v, Ev.e)
+          [] Ev.o = "reset"    -> OpReset(D, S, Ev.v, Ev.e, Ev.x)
           [] Ev.o = "tick"     -> OpTick(S)
 
 PubEq(a, b) == /\ Len(a) = Len(b)
@@ -119,8 +120,18 @@ ReadContractObs ==
         \A e \in DOMAIN D.vecs[m.v].elems : D.vecs[m.v].een[e] =>
            \A k \in DOMAIN Hs(D, m.v, e, "R") : ~D.hs[Hs(D, m.v, e, "R")[k]].coro =>
               \E j \in DOMAIN QO.hlog : QO.hlog[j].h = Hs(D, m.v, e, "R")[k] /\ QO.hlog[j].ev = "R"
+\* what is published is current: outside a write (whose intermediate publications are judged by the write contract) every update
+\* or definition of a property lists the values its elements hold when the operation is over
+PubCurrentObs ==
+  \A i \in DOMAIN QO.pub : LET m == QO.pub[i] IN
+     (m.v # 0 /\ (m.t = "set" \/ (m.t = "def" /\ D.vecs[m.v].kind # "blob"))) =>
+        \A k \in DOMAIN m.els : \A e \in DOMAIN D.vecs[m.v].elems :
+           D.vecs[m.v].elems[e] = m.els[k][1] => m.els[k][2] = QO.val[m.v][e]
 ContractOK ==
   /\ Ev.obs.wireok
+  /\ (Ev.o \in {"state", "get", "ven", "gen", "reset"} /\ (\A h \in DOMAIN D.hs : D.hs[h].refresh = NoRefresh \/ D.hs[h].coro) => PubCurrentObs)
+  /\ (Ev.o = "reset" => QO.pub = <<>> /\ QO.hlog = <<>> /\ QO.vst = PO.vst /\ QO.ven = PO.ven
+                         /\ \A v \in DOMAIN PO.val : \A e \in DOMAIN PO.val[v] : (v # Ev.v \/ e # Ev.e) => QO.val[v][e] = PO.val[v][e])
   /\ ReadContractObs
   /\ RulePreserved(D, PO, QO) /\ PubRuleOK(D, PO, QO)
   /\ (Ev.o = "assign" => AssignOnOK(D, PO, QO, Ev.v, Ev.e, Ev.x))
